@@ -556,8 +556,13 @@ def c14_3(ctx: Ctx) -> RuleResult:
                     [f"{cf.qualname} line {c.lineno}" for cf, c in chain],
                     construct=f"{run.cls.name if run.cls else run.name}: {norm_stmt(sn)}",
                 )
-    # conversion handlers must copy the code from the exception
+    # conversion handlers must copy the code from the exception: the handlers on the call paths of the plan steps
+    # (a separate process that maps an abort to its own exit status, like the external optimizer's child, is not one)
+    runs_ = list(step_run_methods(ctx))
+    scope = set(runs_) | set(ctx.cg.reachable(runs_, include_nested_values=True))
     for f in ctx.repo.all_funcs():
+        if f not in scope:
+            continue
         cfg = cfg_of(ctx.repo, f)
         for h in nodes_in(f, ast.ExceptHandler):
             classes = cfg._handler_classes(h)
@@ -569,9 +574,6 @@ def c14_3(ctx: Ctx) -> RuleResult:
                             ok = True
                         if isinstance(n, ast.Raise):
                             ok = True
-                if _returns_constant_only(h) and not ok:
-                    # child side of the external optimizer: `return 0`
-                    ok = f.module.name.endswith("external")
                 res.add(f, h, "the handler takes the exit code from the caught exception (exc.exit_code)", ok,
                         "" if ok else "handler for OptimizationAborted does not read exc.exit_code",
                         construct=f"except OptimizationAborted in {f.name}")
